@@ -69,6 +69,7 @@ PROPS["C06"] = {
 PROPS["C13"] = {
     "lean_modules": ["Ogen.Props.C13"],
     "suites": ["c13"],
+    "facts": ["float"],
     "trusted_base": [
         KERNEL, HARNESS,
         "statements in lean/Ogen/Props/C13.lean; model IntRT (digit loop of FormatInt/FormatUint, syntax+range of ParseInt/ParseUint, FormatBool/ParseBool) hand-written from strconv's documented behaviour; tie = line-by-line comparison with conv.Int64ToString/Uint64ToString and conv.ToInt*/ToUint* (all widths) on boundary/random values and hostile strings",
@@ -101,6 +102,7 @@ PROPS["C05"] = {
 PROPS["C09"] = {
     "lean_modules": ["Ogen.Props.C09"],
     "suites": ["c09"],
+    "facts": ["tmpl"],
     "timeout": 3600,
     "trusted_base": [
         KERNEL, HARNESS, GENCHECK,
@@ -149,6 +151,7 @@ PROPS["C04"] = {
 PROPS["C15"] = {
     "lean_modules": ["Ogen.Props.C15"],
     "suites": ["c15"],
+    "facts": ["tmpl"],
     "timeout": 3600,
     "trusted_base": [
         KERNEL, HARNESS, GENCHECK,
